@@ -121,11 +121,15 @@ class Inliner:
         self.modules = modules
         self.vocab = vocabulary
         self.defs = collect_defs(modules)
+        self.renamed = _undo_private_renames(modules, self.defs, vocabulary)
+        if self.renamed:
+            self.defs = collect_defs(modules)
         self.new = {q: v for q, v in self.defs.items() if q not in vocabulary and not (q.split('.')[-1].startswith('__') and q.endswith('__'))}
         self.inl = {q: v for q, v in self.new.items() if _inlinable(v[2])}
         self.counter = 0
         self.inlined_sites = 0
         self.report = []
+        self.local_closures = {}
 
     # ------------------------------------------------------------------ which helper does a call denote?
     def target(self, call, mod, cls):
@@ -136,6 +140,8 @@ class Inliner:
                 if q in self.inl:
                     return q
         if isinstance(f, ast.Name):
+            if f.id in self.local_closures:
+                return self.local_closures[f.id]
             q = '%s:%s' % (mod, f.id)
             if q in self.inl:
                 return q
@@ -269,6 +275,57 @@ class Inliner:
             out.append(s)
         return out
 
+    def _inline_closures(self, q, mod, cls, fn):
+        """nested helper functions that are not part of the vocabulary (closures extracted by a refactoring) are inlined at their
+        call sites inside the enclosing function; free variables keep their names, the closure's own locals get fresh ones"""
+        nested = []
+
+        def find(stmts):
+            for s_ in stmts:
+                if isinstance(s_, ast.FunctionDef):
+                    nested.append(s_)
+                    continue
+                for fld in ('body', 'orelse', 'finalbody'):
+                    sub = getattr(s_, fld, None)
+                    if isinstance(sub, list) and sub and isinstance(sub[0], ast.stmt) and not isinstance(s_, ast.ClassDef):
+                        find(sub)
+                for h in getattr(s_, 'handlers', []):
+                    find(h.body)
+        find(fn.body)
+        todo = {}
+        for nf in nested:
+            nq = '%s.<locals>.%s' % (q, nf.name)
+            if nq in self.vocab or not _inlinable(nf):
+                continue
+            # the name must only be used as a call target inside fn
+            uses = [x for x in ast.walk(fn) if isinstance(x, ast.Name) and x.id == nf.name and isinstance(x.ctx, ast.Load)]
+            calls = [c for c in ast.walk(fn) if isinstance(c, ast.Call) and isinstance(c.func, ast.Name) and c.func.id == nf.name]
+            if len(uses) != len(calls) or not calls:
+                continue
+            todo[nf.name] = (nq, nf)
+        if not todo:
+            return
+        for name, (nq, nf) in todo.items():
+            self.inl[nq] = (mod, None, nf)
+            self.local_closures[name] = nq
+        try:
+            fn.body = self.rewrite_block(fn.body, mod, cls)
+        finally:
+            for name, (nq, nf) in todo.items():
+                self.local_closures.pop(name, None)
+                self.inl.pop(nq, None)
+        # drop the nested definitions that are no longer referenced
+        for name, (nq, nf) in todo.items():
+            still = any(isinstance(x, ast.Name) and x.id == name and isinstance(x.ctx, ast.Load) for x in ast.walk(fn))
+            if not still:
+                for n_ in ast.walk(fn):
+                    for fld in ('body', 'orelse', 'finalbody'):
+                        seq = getattr(n_, fld, None)
+                        if isinstance(seq, list) and nf in seq:
+                            seq.remove(nf)
+                            if not seq:
+                                seq.append(ast.copy_location(ast.Pass(), nf))
+
     def _returns_tuples(self, q, n):
         fn = self.inl[q][2]
         rets = [x for x in ast.walk(fn) if isinstance(x, ast.Return)]
@@ -292,11 +349,10 @@ class Inliner:
 
     # ------------------------------------------------------------------ driver
     def run(self):
-        if not self.inl:
-            return self
         for q, (mod, cls, fn) in self.defs.items():
             if q in self.inl:
                 continue
+            self._inline_closures(q, mod, cls, fn)
             fn.body = self.rewrite_block(fn.body, mod, cls)
             # nested functions of vocabulary functions
             for sub in ast.walk(fn):
@@ -340,11 +396,11 @@ def _own_nodes(fn):
     return out
 
 
-def _collapse_aliases(fn):
+def _collapse_aliases(fn, prefix=r'_i\d+_'):
     """after inlining: `x = _iN_y` where x is bound only there makes _iN_y an alias of x from its birth - rename it to x and drop
     the copy; bare expression statements of generated names (result of an inlined procedure call) are dropped"""
     import re
-    gen = re.compile(r'_i\d+_')
+    gen = re.compile(prefix)
     params = {a.arg for a in fn.args.args + fn.args.kwonlyargs}
     for _round in range(200):
         nodes = _own_nodes(fn)
@@ -357,6 +413,15 @@ def _collapse_aliases(fn):
                 if len(stores) == 1:
                     hit = (a, A, B)
                     break
+                # `for B, ... in X: A = B; ...` with no other binding of A inside that loop: B is A from its birth in each round
+                for f in nodes:
+                    if isinstance(f, ast.For) and f.body and f.body[0] is a and any(isinstance(x, ast.Name) and x.id == B for x in ast.walk(f.target)):
+                        inner = [x for s_ in f.body for x in ast.walk(s_) if isinstance(x, ast.Name) and x.id == A and isinstance(x.ctx, ast.Store)]
+                        outside_B = [x for x in nodes if isinstance(x, ast.Name) and x.id == B and not any(x is y for y in ast.walk(f))]
+                        if len(inner) == 1 and not outside_B:
+                            hit = (a, A, B)
+                if hit:
+                    break
         if hit is None:
             break
         a, A, B = hit
@@ -367,6 +432,41 @@ def _collapse_aliases(fn):
     for x in _own_nodes(fn):
         if isinstance(x, ast.Expr) and isinstance(x.value, ast.Name) and gen.match(x.value.id):
             _drop_stmt(fn, x)
+    # a generated temporary bound once and read once by the statement that follows is that expression
+    for _round in range(200):
+        nodes = _own_nodes(fn)
+        done = False
+        for holder in [fn] + [n for n in nodes if isinstance(n, ast.stmt)]:
+            for field in ('body', 'orelse', 'finalbody'):
+                seq = getattr(holder, field, None)
+                if not (isinstance(seq, list) and seq and isinstance(seq[0], ast.stmt)):
+                    continue
+                for i, a in enumerate(seq[:-1]):
+                    if isinstance(a, ast.Assign) and len(a.targets) == 1 and isinstance(a.targets[0], ast.Name) and re.match(r'_i\d+_(ret|r\d+)$', a.targets[0].id):
+                        T_ = a.targets[0].id
+                        stores = [x for x in nodes if isinstance(x, ast.Name) and x.id == T_ and isinstance(x.ctx, ast.Store)]
+                        loads = [x for x in nodes if isinstance(x, ast.Name) and x.id == T_ and isinstance(x.ctx, ast.Load)]
+                        nxt = seq[i + 1]
+                        # only the expressions the next statement evaluates itself (not its nested blocks)
+                        own_next = []
+                        for f2, v2 in ast.iter_fields(nxt):
+                            if f2 in ('body', 'orelse', 'finalbody', 'handlers'):
+                                continue
+                            vs = v2 if isinstance(v2, list) else [v2]
+                            for v3 in vs:
+                                if isinstance(v3, ast.AST):
+                                    own_next += list(ast.walk(v3))
+                        if len(stores) == 1 and len(loads) == 1 and any(l is loads[0] for l in own_next):
+                            _replace_in(nxt, loads[0], a.value)
+                            seq.remove(a)
+                            done = True
+                            break
+                if done:
+                    break
+            if done:
+                break
+        if not done:
+            break
 
 
 def _drop_stmt(root, stmt):
@@ -378,3 +478,48 @@ def _drop_stmt(root, stmt):
                 if not seq and field == 'body':
                     seq.append(ast.copy_location(ast.Pass(), stmt))
                 return
+
+
+def _undo_private_renames(modules, defs, vocabulary):
+    """a private helper of the vocabulary that is gone while exactly one new private helper appeared in the same class / module
+    was renamed: give it its vocabulary name back (definition and call sites), so that the rules find their anchor"""
+    renamed = []
+    groups = {}
+    for q in vocabulary:
+        if '<locals>' in q:
+            continue
+        owner, name = (q.rsplit('.', 1) if ':' not in q else q.rsplit(':', 1))
+        if name.startswith('_') and not name.endswith('__') and q not in defs:
+            groups.setdefault(owner, {'missing': [], 'new': []})['missing'].append(name)
+    for q, (mod, cls, fn) in defs.items():
+        owner = cls.name if cls is not None else mod
+        if q not in vocabulary and fn.name.startswith('_') and not fn.name.endswith('__') and owner in groups:
+            groups[owner]['new'].append((q, fn))
+    for owner, g in groups.items():
+        if len(g['missing']) == 1 and len(g['new']) == 1:
+            old_name = g['missing'][0]
+            q, fn = g['new'][0]
+            new_name = fn.name
+            fn.name = old_name
+            for tree in modules.values():
+                for x in ast.walk(tree):
+                    if isinstance(x, ast.Attribute) and x.attr == new_name:
+                        x.attr = old_name
+                    elif isinstance(x, ast.Name) and x.id == new_name:
+                        x.id = old_name
+            renamed.append((owner, new_name, old_name))
+    return renamed
+
+
+def _replace_in(root, old, new_expr):
+    for n in ast.walk(root):
+        for field, val in ast.iter_fields(n):
+            if val is old:
+                setattr(n, field, ast.copy_location(new_expr, old))
+                return True
+            if isinstance(val, list):
+                for i, x in enumerate(val):
+                    if x is old:
+                        val[i] = ast.copy_location(new_expr, old)
+                        return True
+    return False
